@@ -62,7 +62,9 @@ def steps_of(start, end, unit, n):
 
 def gen_scenario(rng, focus=None, entry=None):
     """focus biases the feature mix: None, 'treat', 'mortality', 'sei', 'soil',
-    'multi', 'overpop', 'movement', 'removal', 'det'."""
+    'multi', 'overpop', 'movement', 'removal', 'det', 'oversuit' (several hosts and a
+    cell whose total population is below the hosts' combined susceptibles: every
+    host's own suitability is <= 1 but their sum is not - documented as rejected)."""
     sc = Scenario()
     entry = entry or ("rasters" if rng.random() < 0.12 else "pools")
     rows, cols = rng.choice(SHAPES)
@@ -91,7 +93,7 @@ def gen_scenario(rng, focus=None, entry=None):
     gen_st = 0 if det else rng.choice([0, 1])
     est_st = 0 if det else rng.choice([0, 1, 1])
     disp_st = rng.choice([0, 1, 1, 1])
-    nhosts = 1 if entry == "rasters" else (rng.choice([2, 3]) if focus == "multi" else rng.choice([1, 1, 1, 2, 3]))
+    nhosts = 1 if entry == "rasters" else (rng.choice([2, 3]) if focus in ("multi", "oversuit") else rng.choice([1, 1, 1, 2, 3]))
     season = rng.choice([(1, 12), (1, 12), (3, 9), (5, 6), (12, 12)])
     use = lambda p: 1 if rng.random() < p else 0
     f = focus
@@ -190,6 +192,15 @@ def gen_scenario(rng, focus=None, entry=None):
     for i in range(ncell):
         base = sum(hosts[h][i]["S"] + sum(hosts[h][i]["E"]) + hosts[h][i]["I"] + hosts[h][i]["R"] for h in range(nhosts))
         tot.append(base + rng.choice([0, 0, 5, 20]) if base > 0 or rng.random() < 0.3 else 0)
+    if nhosts >= 2 and not use_moves and (focus == "oversuit" or rng.random() < 0.05):
+        # combined suitability above one: population between the largest single
+        # susceptible count and the sum of the susceptible counts (the infected cells first:
+        # that is where dispersers land with short kernels)
+        order = sorted(range(ncell), key=lambda i: -sum(hosts[h][i]["I"] for h in range(nhosts)))
+        for i in order[:rng.choice([1, 1, 2, ncell])]:
+            ss = [hosts[h][i]["S"] for h in range(nhosts)]
+            if sorted(ss)[-2] > 0:
+                tot[i] = rng.randint(max(ss), sum(ss) - 1)
     if use_moves:
         # hosts can be moved anywhere: keep total population >= hosts everywhere
         allhosts = sum(tot)
@@ -229,6 +240,10 @@ def gen_scenario(rng, focus=None, entry=None):
                     pest = False
             coefs = [dy(rng, ["0", "1/4", "1/2", "3/4", "1", "1", "0", "1/2"]) for _ in range(ncell)]
             sc.add("treat", 1 if pest else 0, d0[0], d0[1], d0[2], days, rng.choice(["ratio", "ratio", "all_infected_in_cell"]), *coefs)
+        if entry == "pools" and rng.random() < (0.5 if f == "treat" else 0.25):
+            # computational steering: before step K the treatments dated after step S are dropped
+            K = rng.randrange(0, nsteps)
+            sc.add("clearafter", K, max(0, rng.choice([K - 1, K - 1, K, rng.randrange(0, nsteps), 0])))
     sc.add("end")
     sc.meta = dict(entry=entry, rows=rows, cols=cols, mt=mt, latency=latency, nhosts=nhosts, nsteps=run_steps,
                    steps=steps, features=dict(lethal=use_lethal, survival=use_surv, overpop=use_overpop, movements=use_moves,
@@ -283,7 +298,7 @@ def gen_pair_L0(rng):
     return [a, b]
 
 
-FOCI = [None, "treat", "mortality", "sei", "soil", "multi", "overpop", "movement", "removal", "det"]
+FOCI = [None, "treat", "mortality", "sei", "soil", "multi", "overpop", "movement", "removal", "det", "oversuit"]
 
 
 def generate(seed, n, focus_weights=None):
